@@ -22,6 +22,7 @@ CONSTANTS
   ClosesPipeOnBuildError,   \* FALSE = as built (D9): error returns of buildHTTP after the goroutine start leave the pipe open
   ClosesFilesOnParamsError, \* FALSE = as built (D9b): a params-writer error after SetFileParam leaves the files open
   ClosesFilesOnFieldError,  \* FALSE = as built (D18): a failed WriteField returns before the file-closing defer is registered
+  CopyMarksEndSeen,         \* TRUE = mutant: a copy of the body (WriterTo) marks its end as seen even when the destination failed
   CancelsBeforeClose,       \* TRUE = mutant: the call's own context is cancelled before the response body is closed
   FileLen,                  \* units per upload source (>= 1); unit 1 is what the content-type sniffing Read delivers
   RespLen                   \* units of the response body (>= 1)
@@ -45,7 +46,9 @@ NoSrv == [kind |-> "none", at |-> "none", k |-> 0]
 \* cancel   : the context is cancelled during "auth", during "send" (request consumed, nothing answered) or by the reader ("read")
 \* texp     : the request timeout is already over when the exchange starts (SetTimeout with a negative or a
 \*            vanishing duration, e.g. time.Until(a spent budget)): the effective deadline has passed at once
-\* reader   : the response reader reads to the end ("all"), nothing ("p0") or one unit ("p1")
+\* reader   : the response reader reads to the end ("all"), nothing ("p0") or one unit ("p1"), or copies the body into a
+\*            destination that fails after one unit ("w1": io.Copy / WriterTo into a failing io.Writer; the reader then
+\*            returns that error without having seen the end of the body)
 Payloads ==
   [ none   |-> [payload |-> "none",   fields |-> 0, nfiles |-> 0],
     buffer |-> [payload |-> "buffer", fields |-> 0, nfiles |-> 0],
@@ -105,7 +108,9 @@ CInit(c) ==
     rdoff |-> 0,           \* units delivered by an io.Reader payload
     tpc |-> "idle",        \* transport: idle start consume respond stalled fail done
     resp |-> FALSE,        \* a response was returned by the transport
-    rread |-> 0, eofSeen |-> FALSE, respOpen |-> FALSE, drained |-> FALSE,
+    rread |-> 0, eofSeen |-> FALSE,   \* the wrapper's flag "end of the body seen" (what Close consults)
+    endSeen |-> FALSE,                \* the reader really was told the end of the body (EOF or an error)
+    respOpen |-> FALSE, drained |-> FALSE,
     ctx |-> "no",          \* context of the call: no / cancel (by the caller) / deadline / self (the call's own deferred cancel)
     now |-> 0,
     srcHit |-> FALSE ]     \* an upload source failed
@@ -189,9 +194,12 @@ CallerNext(c, s) ==
          ELSE {}
     [] s.pc = "read" ->       \* readResponse.ReadResponse
          IF c.reader = "p0" THEN { EnterClose([s EXCEPT !.res = "ok"]) }
-         ELSE { CASE x.r = "data" -> IF c.reader = "p1" THEN EnterClose([x.st EXCEPT !.res = "ok"]) ELSE x.st
-                  [] x.r = "eof"  -> EnterClose([x.st EXCEPT !.eofSeen = TRUE, !.res = "ok"])
-                  [] OTHER        -> EnterClose([x.st EXCEPT !.eofSeen = TRUE, !.res = "err"])
+         ELSE { CASE x.r = "data" -> IF c.reader = "p1" THEN EnterClose([x.st EXCEPT !.res = "ok"])
+                                     ELSE IF c.reader = "w1"                                     \* the destination failed
+                                          THEN EnterClose([x.st EXCEPT !.res = "err", !.eofSeen = CopyMarksEndSeen])
+                                     ELSE x.st
+                  [] x.r = "eof"  -> EnterClose([x.st EXCEPT !.eofSeen = TRUE, !.endSeen = TRUE, !.res = "ok"])
+                  [] OTHER        -> EnterClose([x.st EXCEPT !.eofSeen = TRUE, !.endSeen = TRUE, !.res = "err"])
                 : x \in RespRead(c, s) }
     [] s.pc = "close" ->      \* deferred res.Body.Close(): drainingReadCloser when reuse; then deferred cancel()
          IF c.reuse /\ ~s.eofSeen
@@ -305,7 +313,7 @@ Released(c, s) ==
   /\ \A i \in 1..2 : ~s.fileOpen[i]                       \* every file handed over has been closed
   /\ ~WriterAlive(s)                                      \* no goroutine started by the call remains
   /\ ~s.respOpen                                          \* the response body has been closed ...
-  /\ (c.reuse /\ s.resp => s.eofSeen \/ s.drained)        \* ... after being drained when reuse is on and its end was not seen
+  /\ (c.reuse /\ s.resp => s.endSeen \/ s.drained)        \* ... after being drained when reuse is on and its end was not seen
 
 \* an error unless the complete response was obtained; a failing source is never a success
 ResultSound(c, s) ==
@@ -314,7 +322,7 @@ ResultSound(c, s) ==
      /\ s.res = "ok" => /\ s.resp
                         /\ ~s.srcHit
                         /\ (c.reader = "all" => s.rread = RespLen)
-     /\ ~HasFault(c) => s.res = "ok"
+     /\ ~HasFault(c) => s.res = (IF c.reader = "w1" THEN "err" ELSE "ok")    \* w1: the reader itself fails
 
 \* the call never is blocked past the effective deadline
 TimeOK(s) == s.now <= 1
@@ -331,8 +339,8 @@ EffectiveDeadline(tsrc, timeoutMs, ctxMs, cancelMs, none) ==
 \* connection reuse enabled it is drained to its end first (its end seen by the reader, or reached by the drain; a drain cut
 \* short by the *caller's* done context is the only excuse) - so the calls share one connection (KeptAliveWhenDrained:
 \* net/http keeps an HTTP/1.1 connection whose response was read to its end).
-SeqCallReleased(reuse, e) ==
-  /\ e.result = "ok" /\ e.resp_obtained /\ e.resp_closes >= 1
+SeqCallReleased(reuse, reader, e) ==
+  /\ e.result = (IF reader = "w1" THEN "err" ELSE "ok") /\ e.resp_obtained /\ e.resp_closes >= 1
   /\ reuse => e.reader_saw_end \/ e.term_before_close \/ e.drain_cut = "env"
 SeqConnsAllowed(reuse, allEnded, conns) == conns >= 1 /\ (reuse /\ allEnded => conns = 1)
 
@@ -341,7 +349,7 @@ Obs(c, s) ==
     files_closed |-> \A i \in 1..2 : ~s.fileOpen[i],
     writer_dead |-> ~WriterAlive(s),
     resp_closed |-> ~s.respOpen,
-    drain_ok |-> (c.reuse /\ s.resp => s.eofSeen \/ s.drained),
+    drain_ok |-> (c.reuse /\ s.resp => s.endSeen \/ s.drained),
     src_hit |-> s.srcHit ]
 
 Outcomes(c) == { Obs(c, s) : s \in Terminals(c) }
